@@ -300,6 +300,7 @@ func (ex *Exec) loopModified(li *loopInfo) *modSet {
 // either the MakeClosure itself, or a load of a local that is assigned exactly once, with a MakeClosure.
 func (ex *Exec) localClosure(v ssa.Value) *ssa.Function {
 	var mc *ssa.MakeClosure
+	var plain *ssa.Function // an anonymous function that captures nothing
 	switch v := v.(type) {
 	case *ssa.MakeClosure:
 		mc = v
@@ -319,6 +320,8 @@ func (ex *Exec) localClosure(v ssa.Value) *ssa.Function {
 					n++
 					if m, ok := st.Val.(*ssa.MakeClosure); ok {
 						mc = m
+					} else if f, ok := st.Val.(*ssa.Function); ok && f.Parent() == ex.fn {
+						plain = f
 					}
 				} else if _, isLoad := r.(*ssa.UnOp); !isLoad {
 					if _, isDbg := r.(*ssa.DebugRef); !isDbg {
@@ -329,6 +332,9 @@ func (ex *Exec) localClosure(v ssa.Value) *ssa.Function {
 		}
 		if n != 1 {
 			return nil
+		}
+		if plain != nil && mc == nil {
+			return plain
 		}
 	}
 	if mc == nil {
@@ -432,6 +438,11 @@ func (ex *Exec) callModified(in ssa.CallInstruction, ms *modSet) {
 			if v, ok := ex.con.Observe[callee.Name()]; ok {
 				ms.ghosts = append(ms.ghosts, "obs:"+v)
 			}
+			for key, v := range ex.con.Observe {
+				if strings.HasPrefix(key, callee.Name()+"#") {
+					ms.ghosts = append(ms.ghosts, "obs:"+v)
+				}
+			}
 		}
 		if isLockCall(name) {
 			ms.locks = true
@@ -490,6 +501,11 @@ func (ex *Exec) callModified(in ssa.CallInstruction, ms *modSet) {
 				ms.alloc = true
 			}
 			return
+		}
+	}
+	if c.IsInvoke() && ex.con != nil {
+		if v, ok := ex.con.Observe[c.Method.Name()]; ok {
+			ms.ghosts = append(ms.ghosts, "obs:"+v)
 		}
 	}
 	if c.IsInvoke() {
@@ -764,8 +780,13 @@ func (ex *Exec) run() {
 		}
 		for callee, v := range ex.con.Observe {
 			var srt Sort = SBool
-			if f := ex.P.calleeByShortName(fn, callee); f != nil && f.Signature.Results().Len() > 0 {
-				srt = vc.sortOf(f.Signature.Results().At(0).Type())
+			k := 0
+			if i := strings.Index(callee, "#"); i > 0 {
+				fmt.Sscanf(callee[i+1:], "%d", &k)
+				callee = callee[:i]
+			}
+			if f := ex.P.calleeByShortName(fn, callee); f != nil && f.Signature.Results().Len() > k {
+				srt = vc.sortOf(f.Signature.Results().At(k).Type())
 			}
 			st.ghost["obs:"+v] = vc.zeroOfSort(srt, nil)
 		}
